@@ -13,6 +13,7 @@ LEVEL = 'exploration'
 SHARDS = {'quick': 4, 'thorough': 16}
 TIMEOUT = {'quick': 300, 'thorough': 3000}
 N_POP = {'quick': 1000, 'thorough': 80000}
+N_BIG = {'quick': 12, 'thorough': 600}          # scale regime: 130-400 agents
 RULE = ('cases: seeded populations of 0-12 agents (after an add/remove history, so joining order != creation order) with arbitrary subsets '
         'of 4 component types (plus a type nobody has) and tags from {0, registered tag ids, unregistered ints, -1}; model seeds vary per '
         'population; 12 queries each with templates of 0..4 types (repeats allowed) and tag filters {None, 0, each tag in use, unused}. '
@@ -23,7 +24,7 @@ RULE = ('cases: seeded populations of 0-12 agents (after an add/remove history, 
         '(population signature, query).')
 ASSUMPTIONS = ['"every member is reachable" is checked as: each of the k members is drawn within 60*k draws (a uniform pick misses one with probability < 1e-25)']
 FLOORS = {'quick': {'queries': 6000, 'tag_zero_queries': 800, 'tag_queries': 3000, 'template_queries': 4000, 'empty_filters': 1500,
-                    'random_picks': 100000, 'reachability_checks': 700, 'shuffles': 8000, 'shuffles_reordered': 2000, 'size_preserving_swaps': 1500, 'nested_environment_agents': 300, 'failed_removals': 60, 'secondary_environment_populations': 100, 'completed_model_populations': 80,
+                    'random_picks': 100000, 'reachability_checks': 700, 'shuffles': 8000, 'shuffles_reordered': 2000, 'size_preserving_swaps': 1500, 'big_populations': 6, 'ids_taken_over_by_new_objects': 100, 'nested_environment_agents': 300, 'failed_removals': 60, 'secondary_environment_populations': 100, 'completed_model_populations': 80,
                     'reach:Core.Environment.get_agents': 100000, 'reach:Core.Environment.get_random_agent': 100000,
                     'reach:Core.Environment.shuffle': 8000},
           'thorough': {'queries': 600000, 'reachability_checks': 80000}}
@@ -195,14 +196,79 @@ def case_population(ctx, case):
         ctx.sample({'kind': 'population', 'i': case['i'], 'population': popsig, 'last_query': q, 'answer': [a.id for a in exp]})
 
 
+
+def case_big(ctx, case):
+    """Scale regime: 130-400 agents; component types carried by very few agents; agents that obtain a component after they joined; ids that
+    are given up by one agent object and taken by another; hundreds of random picks."""
+    rng = ctx.rng('big', case['i'])
+    core, tags, K = fixtures()
+    model = core.Model(seed=rng.randint(0, 10 ** 6))
+    env = model.environment
+    n = rng.choice([130, 200, 400])
+    universe, order = [], []
+    for j in range(n):
+        a = core.Agent(f'a{j}', model, tag=rng.choice([0, 0, 1, 2]))
+        if rng.random() < 0.6:
+            a.add_component(K[0](a, model))
+        if rng.random() < 0.04:
+            a.add_component(K[1](a, model))           # rare type
+        universe.append(a)
+        env.add_agent(a)
+        order.append(a)
+    for a in rng.sample(order, n // 8):               # e.g. infection spreading: obtained while resident (has_component is what counts)
+        if K[2] not in a.components:
+            a.add_component(K[2](a, model))
+    # turnover: agents leave and DIFFERENT objects join under the same ids
+    for a in rng.sample(order, n // 5):
+        env.remove_agent(a.id) if K[2] not in a.components else None
+        if K[2] in a.components:
+            continue
+        order.remove(a)
+        b = core.Agent(a.id, model, tag=rng.choice([0, 1]))
+        b.add_component(K[0](b, model))
+        universe.append(b)
+        env.add_agent(b)
+        order.append(b)
+        ctx.count('ids_taken_over_by_new_objects')
+
+    def expect(template, tag):
+        return [a for a in order if all(T in a.components for T in template) and (tag is None or a.tag == tag)]
+
+    for template, tag in [((), None), ((K[0],), None), ((K[1],), None), ((K[2],), None), ((K[0], K[2]), 1), ((K[1],), 0), ((), 2), ((K[3],), None)]:
+        exp = expect(template, tag)
+        kw = {} if tag is None else {'tag': tag}
+        got = env.get_agents(*template, **kw)
+        ctx.ev()
+        ctx.count('big_queries')
+        if not same_objects(got, exp):
+            raise CaseViolation(f'get_agents in an environment with {len(order)} agents differs from the reference filter',
+                                template=[T.__name__ for T in template], tag=tag, n_expected=len(exp), n_observed=len(got),
+                                missing=[a.id for a in exp if not any(a is b for b in got)][:8], extra=[a.id for a in got if not any(a is b for b in exp)][:8])
+        sh = env.shuffle(*template, **kw)
+        check(sorted(map(id, sh)) == sorted(map(id, exp)), 'shuffle of a large filter is not a permutation of it', n_expected=len(exp), n_observed=len(sh))
+        for _ in range(150 if exp else 3):
+            r = env.get_random_agent(*template, **kw)
+            ctx.count('random_picks')
+            if (r is None) != (not exp) or (r is not None and not any(r is a for a in exp)):
+                raise CaseViolation('random pick in a large environment returned an object outside the filter (or None on a non-empty filter)',
+                                    template=[T.__name__ for T in template], tag=tag, returned=getattr(r, 'id', r),
+                                    is_resident=any(r is a for a in order))
+    check(same_objects(list(env), order), 'queries changed the environment')
+    ctx.count('big_populations')
+    ctx.distinct(('big', n, case['i']))
+
+
 def run_case(ctx, case):
-    case_population(ctx, case)
+    (case_big if case.get('kind') == 'big' else case_population)(ctx, case)
 
 
 def run(ctx):
     for i in range(N_POP[ctx.tier]):
         if ctx.mine(i) and not ctx.full():
             ctx.run_case({'kind': 'pop', 'i': i}, run_case)
+    for i in range(N_BIG[ctx.tier]):
+        if ctx.mine(i) and not ctx.full():
+            ctx.run_case({'kind': 'big', 'i': i}, run_case)
 
 
 def replay(ctx, case):
